@@ -69,6 +69,8 @@ type decWalker struct {
 	effects []string
 	probs   []string
 	alloc32 []string // allocations sized by a raw 64-bit length whose guards are on its int conversion
+	readers  map[types.Object]bool // closures of the prologue recognised as the shared varint reader
+	inReader bool                  // the reader closure's own body is being matched
 }
 
 func (w *decWalker) is(x ast.Expr, o types.Object) bool {
@@ -256,6 +258,13 @@ func (w *decWalker) term(x ast.Expr) (string, error) {
 			if st := info.TypeOf(t.Args[0]); st != nil && types.Identical(st, tv.Type) {
 				return a, nil
 			}
+			// T(v) of a varint read into a uint64 keeps the low bits of the varint, exactly what accumulating the
+			// groups in a T does (a group shifted beyond T's width contributes nothing): varint[T]
+			if a == "varint[uint64]" {
+				if b, isB := tv.Type.Underlying().(*types.Basic); isB && b.Info()&types.IsInteger != 0 {
+					return "varint[" + tname(tv.Type) + "]", nil
+				}
+			}
 			return tname(tv.Type) + "(" + a + ")", nil
 		}
 		obj := core.CalleeObj(info, t)
@@ -351,7 +360,7 @@ func (w *decWalker) term(x ast.Expr) (string, error) {
 			if err != nil {
 				return "", err
 			}
-			return "zzdec64(" + a + ")", nil
+			return "int64(zzdec64(" + a + "))", nil // the library function returns int64
 		}
 	case *ast.SliceExpr:
 		if w.payload(x) {
@@ -547,7 +556,12 @@ func (w *decWalker) varintLoop(fs *ast.ForStmt) (ast.Expr, types.Type, bool) {
 		return nil, nil, false
 	}
 	if br, ok := g3.Body.List[0].(*ast.BranchStmt); !ok || br.Tok != token.BREAK {
-		return nil, nil, false
+		// inside the shared reader closure the terminating byte returns the accumulator: `return v, nil`
+		rs, isRet := g3.Body.List[0].(*ast.ReturnStmt)
+		if !w.inReader || !isRet || len(rs.Results) != 2 || types.ExprString(rs.Results[1]) != "nil" ||
+			types.ExprString(ast.Unparen(rs.Results[0])) != types.ExprString(ast.Unparen(acc.Lhs[0])) {
+			return nil, nil, false
+		}
 	}
 	if c, ok := g3.Cond.(*ast.BinaryExpr); !ok || c.Op != token.LSS || !w.is(c.X, bv) {
 		return nil, nil, false
@@ -555,6 +569,79 @@ func (w *decWalker) varintLoop(fs *ast.ForStmt) (ast.Expr, types.Type, bool) {
 		return nil, nil, false
 	}
 	return acc.Lhs[0], tv.Type, true
+}
+
+// readerClosure: func() (uint64, error) { var v uint64; for shift := uint(0); ; shift += 7 { …; if b < 0x80 { return v, nil } } }
+func (w *decWalker) readerClosure(fl *ast.FuncLit) bool {
+	info := w.info
+	if fl.Type.Params != nil && len(fl.Type.Params.List) != 0 {
+		return false
+	}
+	if fl.Type.Results == nil || len(fl.Type.Results.List) != 2 {
+		return false
+	}
+	if basicKind(info.TypeOf(fl.Type.Results.List[0].Type)) != types.Uint64 || info.TypeOf(fl.Type.Results.List[1].Type).String() != "error" {
+		return false
+	}
+	body := w.normVarint(fl.Body.List)
+	if len(body) != 2 {
+		return false
+	}
+	d, ok := body[0].(*ast.DeclStmt)
+	if !ok {
+		return false
+	}
+	gd, ok := d.Decl.(*ast.GenDecl)
+	if !ok || gd.Tok != token.VAR || len(gd.Specs) != 1 {
+		return false
+	}
+	vs := gd.Specs[0].(*ast.ValueSpec)
+	if len(vs.Names) != 1 || len(vs.Values) != 0 {
+		return false
+	}
+	v := info.ObjectOf(vs.Names[0])
+	fs, ok := body[1].(*ast.ForStmt)
+	if !ok {
+		return false
+	}
+	w.inReader = true
+	acc, T, ok := w.varintLoop(fs)
+	w.inReader = false
+	return ok && w.is(acc, v) && basicKind(T) == types.Uint64
+}
+
+// readerCall handles `u, err := readVarint()` followed by `if err != nil { return …, err }`: u holds one varint
+// read at the cursor (errors: overflow and truncated input, as in the inline loop). Returns the statements consumed.
+func (w *decWalker) readerCall(list []ast.Stmt, i int) (int, bool) {
+	info := w.info
+	as, ok := list[i].(*ast.AssignStmt)
+	if !ok || as.Tok != token.DEFINE || len(as.Lhs) != 2 || len(as.Rhs) != 1 || i+1 >= len(list) {
+		return 0, false
+	}
+	call, ok := ast.Unparen(as.Rhs[0]).(*ast.CallExpr)
+	if !ok || len(call.Args) != 0 {
+		return 0, false
+	}
+	fid, ok := ast.Unparen(call.Fun).(*ast.Ident)
+	if !ok || !w.readers[info.ObjectOf(fid)] {
+		return 0, false
+	}
+	uid, _ := as.Lhs[0].(*ast.Ident)
+	eid, _ := as.Lhs[1].(*ast.Ident)
+	if uid == nil || eid == nil || uid.Name == "_" || eid.Name == "_" {
+		return 0, false
+	}
+	chk, ok := list[i+1].(*ast.IfStmt)
+	if !ok || chk.Init != nil || chk.Else != nil || !w.isErrRet(chk.Body) || types.ExprString(chk.Cond) != eid.Name+" != nil" {
+		return 0, false
+	}
+	// the error handed back must be the reader's
+	if rs := chk.Body.List[0].(*ast.ReturnStmt); types.ExprString(rs.Results[1]) != eid.Name {
+		return 0, false
+	}
+	w.atStart = false
+	w.vals[info.ObjectOf(uid)] = "varint[uint64]"
+	return 2, true
 }
 
 // applyVarint performs ACC = ACC | varint[T].
@@ -638,6 +725,10 @@ func (w *decWalker) stmts(list []ast.Stmt) error {
 	list = w.normVarint(list)
 	for i := 0; i < len(list); i++ {
 		s := list[i]
+		if n, ok := w.readerCall(list, i); ok {
+			i += n - 1
+			continue
+		}
 		switch t := s.(type) {
 		case *ast.DeclStmt:
 			gd, ok := t.Decl.(*ast.GenDecl)
@@ -1197,22 +1288,35 @@ func (w *decWalker) mapEntryLoop(fs *ast.ForStmt) error {
 	body := w.normVarint(fs.Body.List)
 	entryPre := info.ObjectOf(body[0].(*ast.AssignStmt).Lhs[0].(*ast.Ident))
 	entryPost := w.post
-	if len(body) != 5 {
-		return und("map entry loop form (%d statements)", len(body))
-	}
-	// var wire uint64; varint; fieldNum := int32(wire >> 3)
-	d, ok := body[1].(*ast.DeclStmt)
-	if !ok {
-		return und("map entry loop: tag variable")
-	}
-	tagVar := info.ObjectOf(d.Decl.(*ast.GenDecl).Specs[0].(*ast.ValueSpec).Names[0])
-	fl, ok := body[2].(*ast.ForStmt)
-	if !ok {
-		return und("map entry loop: tag read")
-	}
-	acc, T, ok := w.varintLoop(fl)
-	if !ok || !w.is(acc, tagVar) || basicKind(T) != types.Uint64 {
-		return und("map entry loop: tag read form")
+	var tagVar types.Object
+	if n, ok := w.readerCall(body, 1); ok && len(body) == 6 {
+		// u, err := readVarint(); if err != nil {…}; wire := u
+		uObj := info.ObjectOf(body[1].(*ast.AssignStmt).Lhs[0].(*ast.Ident))
+		as, isAs := body[1+n].(*ast.AssignStmt)
+		if !isAs || as.Tok != token.DEFINE || len(as.Lhs) != 1 || len(as.Rhs) != 1 || !w.is(as.Rhs[0], uObj) {
+			return und("map entry loop: the tag read by the shared reader is not bound to the tag variable")
+		}
+		tagVar = info.ObjectOf(as.Lhs[0].(*ast.Ident))
+		// continue with the common tail: [pre, tagdecl, read, fieldNum, dispatch]
+		body = []ast.Stmt{body[0], body[1], body[2], body[4], body[5]}
+	} else {
+		if len(body) != 5 {
+			return und("map entry loop form (%d statements)", len(body))
+		}
+		// var wire uint64; varint; fieldNum := int32(wire >> 3)
+		d, ok := body[1].(*ast.DeclStmt)
+		if !ok {
+			return und("map entry loop: tag variable")
+		}
+		tagVar = info.ObjectOf(d.Decl.(*ast.GenDecl).Specs[0].(*ast.ValueSpec).Names[0])
+		fl, ok := body[2].(*ast.ForStmt)
+		if !ok {
+			return und("map entry loop: tag read")
+		}
+		acc, T, ok := w.varintLoop(fl)
+		if !ok || !w.is(acc, tagVar) || basicKind(T) != types.Uint64 {
+			return und("map entry loop: tag read form")
+		}
 	}
 	fa, ok := body[3].(*ast.AssignStmt)
 	if !ok || fa.Tok != token.DEFINE {
@@ -1435,8 +1539,13 @@ func (w *decWalker) summary() string {
 		parts = append(parts, l+" := "+w.fields[l])
 	}
 	parts = append(parts, effects...)
-	return allocTagRe.ReplaceAllString(strings.Join(parts, "; "), "$1")
+	out := allocTagRe.ReplaceAllString(strings.Join(parts, "; "), "$1")
+	// sint32 through the 64-bit library decoder: int32(DecodeZigZag(uint64(uint32(v)))) keeps the low 32 bits of the
+	// varint and un-zig-zags them, which is the 32-bit decoder applied to the varint read as a 32-bit value
+	return zz64as32Re.ReplaceAllString(out, "int32(zzdec32(varint[int32]))")
 }
+
+var zz64as32Re = regexp.MustCompile(`int32\(int64\(zzdec64\(uint64\(uint32\(varint\[u?int(32|64)\]\)\)\)\)\)`)
 
 func (w *decWalker) reset() {
 	w.vals = map[types.Object]string{}
@@ -1512,6 +1621,15 @@ func extractUnmarshal(m *model.Msg) (*decModel, error) {
 					w.idx = info.ObjectOf(id)
 					continue
 				}
+				// readVarint := func() (uint64, error) { var v uint64; <the varint reader, returning v> }: one reader shared
+				// by every arm; a call reads one varint at the cursor exactly as the inline loop does
+				if fl, ok := rhs.(*ast.FuncLit); ok && w.idx != nil && w.buf != nil && w.lVar != nil && w.readerClosure(fl) {
+					if w.readers == nil {
+						w.readers = map[types.Object]bool{}
+					}
+					w.readers[info.ObjectOf(id)] = true
+					continue
+				}
 			}
 			if t.Tok == token.ASSIGN {
 				if id, ok := t.Lhs[0].(*ast.Ident); ok && id.Name == "_" {
@@ -1575,19 +1693,29 @@ func extractUnmarshal(m *model.Msg) (*decModel, error) {
 	} else {
 		return nil, und("decode loop does not start with preIndex := iNdEx")
 	}
-	if d, ok := next().(*ast.DeclStmt); ok {
+	if n, ok := w.readerCall(lb, bi); ok && bi+n < len(lb) {
+		// u, err := readVarint(); if err != nil {…}; wire := u
+		uObj := info.ObjectOf(lb[bi].(*ast.AssignStmt).Lhs[0].(*ast.Ident))
+		bi += n
+		as, isAs := next().(*ast.AssignStmt)
+		if !isAs || as.Tok != token.DEFINE || len(as.Lhs) != 1 || len(as.Rhs) != 1 || !w.is(as.Rhs[0], uObj) {
+			return nil, und("decode loop: the tag read by the shared reader is not bound to the tag variable")
+		}
+		w.wire = info.ObjectOf(as.Lhs[0].(*ast.Ident))
+		w.vals[w.wire] = "varint[uint64]"
+	} else if d, ok := next().(*ast.DeclStmt); ok {
 		w.wire = info.ObjectOf(d.Decl.(*ast.GenDecl).Specs[0].(*ast.ValueSpec).Names[0])
 		w.vals[w.wire] = "0"
-	} else {
-		return nil, und("decode loop: tag variable")
-	}
-	if fl2, ok := next().(*ast.ForStmt); ok {
-		acc, T, ok := w.varintLoop(fl2)
-		if !ok || !w.is(acc, w.wire) || basicKind(T) != types.Uint64 {
-			return nil, und("decode loop: tag is not read by the standard varint reader into a zeroed uint64")
+		if fl2, ok := next().(*ast.ForStmt); ok {
+			acc, T, ok := w.varintLoop(fl2)
+			if !ok || !w.is(acc, w.wire) || basicKind(T) != types.Uint64 {
+				return nil, und("decode loop: tag is not read by the standard varint reader into a zeroed uint64")
+			}
+		} else {
+			return nil, und("decode loop: tag read")
 		}
 	} else {
-		return nil, und("decode loop: tag read")
+		return nil, und("decode loop: tag variable")
 	}
 	for k := 0; k < 2; k++ {
 		as, ok := next().(*ast.AssignStmt)
@@ -1689,6 +1817,65 @@ func (w *decWalker) arm(body []ast.Stmt, arm *decArm) error {
 		arm.Reject = true
 		return nil
 	}
+	// form C: if wireType != K1 && wireType != K2 { return err }; if wireType == K2 {packed} else {elem}
+	if allowed, ok := w.wireGuardSet(first); ok && len(allowed) >= 2 && len(body) == 2 {
+		if !w.isErrRet(first.Body) {
+			return fmt.Errorf("wire-type mismatch does not return an error")
+		}
+		chain, isIf := body[1].(*ast.IfStmt)
+		if !isIf || chain.Init != nil {
+			return und("statements after the wire-type guard")
+		}
+		left := map[int64]bool{}
+		for _, k := range allowed {
+			left[k] = true
+		}
+		for cur := chain; cur != nil; {
+			be, ok := ast.Unparen(cur.Cond).(*ast.BinaryExpr)
+			if !ok || be.Op != token.EQL || !w.is(be.X, w.wt) {
+				return und("wire-type dispatch condition %s", nodeStr(cur.Cond))
+			}
+			k, ok := constInt(info, be.Y)
+			if !ok || !left[k] {
+				return und("wire-type dispatch tests a type the guard does not admit")
+			}
+			delete(left, k)
+			w.reset()
+			if err := w.stmts(cur.Body.List); err != nil {
+				return fmt.Errorf("wire type %d: %w", k, err)
+			}
+			arm.Alts = append(arm.Alts, decAlt{Wire: k, Effects: w.summary()})
+			arm.Problem = append(arm.Problem, w.probs...)
+			w.probs = nil
+			switch e := cur.Else.(type) {
+			case *ast.IfStmt:
+				cur = e
+			case *ast.BlockStmt:
+				// the remaining admitted wire type
+				if len(left) != 1 {
+					return und("else arm of the wire-type dispatch covers %d admitted types", len(left))
+				}
+				for k2 := range left {
+					w.reset()
+					if err := w.stmts(e.List); err != nil {
+						return fmt.Errorf("wire type %d: %w", k2, err)
+					}
+					arm.Alts = append(arm.Alts, decAlt{Wire: k2, Effects: w.summary()})
+					arm.Problem = append(arm.Problem, w.probs...)
+					w.probs = nil
+					delete(left, k2)
+				}
+				cur = nil
+			default:
+				cur = nil
+			}
+		}
+		if len(left) != 0 {
+			return und("an admitted wire type has no decoding arm")
+		}
+		arm.Reject = true
+		return nil
+	}
 	// form B: if wireType == K {elem} else if wireType == 2 {packed} else {return err}
 	if len(body) != 1 {
 		return und("statements after the wire-type dispatch")
@@ -1720,6 +1907,37 @@ func (w *decWalker) arm(body []ast.Stmt, arm *decArm) error {
 		}
 	}
 	return nil
+}
+
+// wireGuardSet: `if wireType != K1 && wireType != K2 … { … }` (no else, no init) — the wire types the guard admits.
+func (w *decWalker) wireGuardSet(is *ast.IfStmt) ([]int64, bool) {
+	if is.Init != nil || is.Else != nil {
+		return nil, false
+	}
+	var out []int64
+	var walk func(x ast.Expr) bool
+	walk = func(x ast.Expr) bool {
+		be, ok := ast.Unparen(x).(*ast.BinaryExpr)
+		if !ok {
+			return false
+		}
+		if be.Op == token.LAND {
+			return walk(be.X) && walk(be.Y)
+		}
+		if be.Op != token.NEQ || !w.is(be.X, w.wt) {
+			return false
+		}
+		k, ok := constInt(w.info, be.Y)
+		if !ok {
+			return false
+		}
+		out = append(out, k)
+		return true
+	}
+	if !walk(is.Cond) {
+		return nil, false
+	}
+	return out, true
 }
 
 // unknownArm checks the default arm (UNK rules).
